@@ -5,6 +5,8 @@ import re
 def c09_nontrivial(c, i):
     if c[0] == "c09.es":
         return len(i) > 1 and i[0] == "sends" and i[1] != "0"
+    if c[0] == "c09.esdq":
+        return len(i) > 1 and i[0] == "f" and i[1] != "0"
     # at least one failed send was observed (the retry path ran)
     for j, t in enumerate(i):
         if t == "t" and j + 2 < len(i) and i[j + 2] == "0":
@@ -16,6 +18,8 @@ def c09_classify(c, i):
     out = []
     if c[0] == "c09.es":
         return ["real-elasticsearch-output", "es-retry=" + c[1], "es-dq=" + c[2]]
+    if c[0] == "c09.esdq":
+        return ["real-elasticsearch-output+blocking-dead-queue", "esdq-batches=" + c[3], "esdq-exhausted=%d" % sum(1 for x in c[4:] if x == "1")]
     try:
         workers, retry, dqmode = c[1], c[4], c[6]
         out.append("workers=" + workers)
@@ -88,7 +92,7 @@ CFG = {
     "facts": [("RetriableBatcher.Out statement order", fact_out_loop),
               ("Router.Fail forwards to the dead queue only when one exists", fact_router_fail),
               ("elasticsearch onError calls Router.Fail for every event", fact_es_onerror)],
-    "rule": "small scope first (retry -1..3 x dead-queue mode none/batching/sync x failures before success 0..5 or always), one always-failing batch through the real elasticsearch output behind a real Router (retry 0..2 x dead queue on/off x 1-4 events x kinds), then random: workers 1..3, count 1..4 (+ byte limits), retry -1..3, retention 1-5 ms, scripts of 1-5 per-batch failure counts, 1-2 adders, dead-queue batcher workers/count 1..3, kind mixes; distinct = distinct case line; non-trivial = at least one failed send observed",
+    "rule": "small scope first (retry -1..3 x dead-queue mode none/batching/sync x failures before success 0..5 or always), one always-failing batch through the real elasticsearch output behind a real Router (retry 0..2 x dead queue on/off x 1-4 events x kinds), 14 multi-batch runs of the real elasticsearch output with a dead-queue output that blocks on its first call (batch size 1-3, 3-6 batches, some exhausted, some succeeding), then random: workers 1..3, count 1..4 (+ byte limits), retry -1..3, retention 1-5 ms, scripts of 1-5 per-batch failure counts, 1-2 adders, dead-queue batcher workers/count 1..3, kind mixes; distinct = distinct case line; non-trivial = at least one failed send observed",
     "corr_name": "Retry.out on the observed oracle values + two Batcher.step? instances accept the observed boundary trace and compute the same tokens",
     "trusted_base": [
         "cenkalti/backoff NextBackOff and the send function are oracles: their observed results are inputs of the model",
